@@ -10,10 +10,10 @@ demo=$(ls $sd/*_test.go.txt | head -1); dname=zz_seed_$(basename ${demo%.txt})
 cd $wt || exit 2
 git checkout -q -- . ; rm -f $pkg/zz_seed_*_test.go
 cp $demo $pkg/$dname
-clean=$(go test -vet=off -count=1 -run 'Seed' ./$pkg/ 2>&1 | tail -1)
+clean=$(go test -vet=off -count=1 -run 'Seed|TestC[0-9]' ./$pkg/ 2>&1 | tail -1)
 git apply $sd/patch.diff || { echo "PATCH DOES NOT APPLY"; exit 1; }
 build=$(go build ./... 2>&1 | tail -1)
-patched=$(go test -vet=off -count=1 -run 'Seed' ./$pkg/ 2>&1 | tail -1)
+patched=$(go test -vet=off -count=1 -run 'Seed|TestC[0-9]' ./$pkg/ 2>&1 | tail -1)
 rm -f $pkg/$dname
 suite=$(go test -vet=off -count=1 ./... 2>&1 | grep -c "^ok")
 suitefail=$(go test -vet=off -count=1 ./... 2>&1 | grep -c "^FAIL\|^---")
